@@ -199,14 +199,18 @@ def drange(t0 = None, t1 = None, bump = None):
                     raise ValueError('cannot move forward from %s to %s using %s'%(t0, t1, bump))
                 while t<=t1:
                     res.append(t)
-                    t = dt_bump(t, bump)
+                    t, prev = dt_bump(t, bump), t
+                    if t <= prev: ## a compound bump such as '1m-30d' can move forward from t0 and back later on
+                        raise ValueError('cannot move forward from %s to %s using %s'%(prev, t1, bump))
                 return res
             elif t1<t0: 
                 if dt_bump(t0, bump) >= t0:
                     raise ValueError('cannot move back from %s to %s using %s'%(t0, t1, bump))
                 while t>=t1:
                     res.append(t)
-                    t = dt_bump(t, bump)
+                    t, prev = dt_bump(t, bump), t
+                    if t >= prev:
+                        raise ValueError('cannot move back from %s to %s using %s'%(prev, t1, bump))
                 return res
             else:
                 return [t0]
